@@ -150,18 +150,21 @@ w2_regex = re.compile(
 
 # clean_qq regexes, for parsing aliquots under clean_qq=True conditions.
 # Will match much more broadly than the other aliquot regexes.
+# (Whitespace after the letters is only part of the match if the word
+# 'quarter' or equivalent follows it -- otherwise a bare 'NE' at the end
+# of a line would be glued to whatever starts the next line.)
 
 ne_clean = re.compile(
-    fr"{ne_simple}\s*({quarter_subpattern})?", re.IGNORECASE)
+    fr"{ne_simple}(\s*({quarter_subpattern}))?", re.IGNORECASE)
 
 se_clean = re.compile(
-    fr"{se_simple}\s*({quarter_subpattern})?", re.IGNORECASE)
+    fr"{se_simple}(\s*({quarter_subpattern}))?", re.IGNORECASE)
 
 nw_clean = re.compile(
-    fr"{nw_simple}\s*({quarter_subpattern})?", re.IGNORECASE)
+    fr"{nw_simple}(\s*({quarter_subpattern}))?", re.IGNORECASE)
 
 sw_clean = re.compile(
-    fr"{sw_simple}\s*({quarter_subpattern})?", re.IGNORECASE)
+    fr"{sw_simple}(\s*({quarter_subpattern}))?", re.IGNORECASE)
 
 
 # N2, S2, E2, and W2 are the same under clean_qq conditions, since there
